@@ -80,6 +80,9 @@ structure Cfg where
   /-- does building the endpoint of outbound contender `k` (`endpoint_from_hint_obj`) raise?
       Observed by the harness on the real function; arbitrary in all theorems. -/
   hintRaises : Nat → Bool := fun _ => false
+  /-- is the transit key known before the listener is started (`wormhole receive`), or only later
+      (`wormhole send`: `get_connection_hints()` before `set_transit_key()`)?  Arbitrary in all theorems. -/
+  keyAtStart : Bool := true
 
 /-- `_check_and_remove`: `none` = `BadHandshake`; `(false, _)` = keep waiting -/
 def checkAndRemove (buf expected : Bytes) : Option (Bool × Bytes) :=
@@ -255,6 +258,7 @@ structure World where
   n : Nat                           -- connections created so far
   fPending : List Nat               -- `InboundConnectionFactory._pending_connections`
   portOpen : Bool                   -- the listening port exists and `stopListening()` has not been called
+  hasKey : Bool                     -- `set_transit_key()` has been called
   cont : List Contender             -- listener first (if any), then direct hints, then relay hints
   started : Bool                    -- `connect()` called
   t0 : Nat                          -- … at this time
@@ -409,10 +413,28 @@ def addConn (w : World) (relayHs : Option Bytes) (owner : Option Nat) : World ×
     | some k => { w1 with cont := setPhase w1.cont k (.negotiating i) }
   (applyCtx w2 i x, raised)
 
+/-- an inbound connection while the transit key is not known yet: `connectionMade` sets the timer,
+    `InboundConnectionFactory.connectionWasMade` calls `startNegotiation()`, whose `dataReceived(b"")`
+    reaches `owner._send_this()` and trips `assert self._transit_key`; `dataReceived` cancels the
+    timer, records the error, calls `loseConnection()`, goes to `hung up` and re-raises: the
+    exception leaves `connectionWasMade` BEFORE the negotiation Deferred is put into
+    `_pending_connections`: nobody will ever subscribe to it, and the value it will errback with when
+    `connectionLost` comes is already fixed (`_error`).  The model therefore records it as failed
+    from the start (`negD := .fail .assertion`; the harness reports such an orphan the same way).
+    The connection is dropped. -/
+def addOrphan (w : World) : World × Option Err :=
+  -- this is what the source does iff `connectionWasMade` starts the negotiation at once and `dataReceived`
+  -- has no state in which it swallows bytes (generated flags); otherwise: not modelled
+  let e : Err := if Gen.Transit.inbound_negotiates_at_once && Gen.Transit.data_received_is_wrapper_only
+    then .assertion else .unmodelled
+  let c : Conn := { newConn none none (w.now + Gen.Transit.TIMEOUT_s, w.seq) with
+    state := .hungUp, timer := none, err := some e, lost := 1, negD := .fail e }
+  ({ (w.setConn w.n c) with n := w.n + 1, seq := w.seq + 1 }, some e)
+
 /-- a peer (or a stranger) connects to the advertised port: possible exactly while the port is
     listening, whatever has become of `_listener_d` -/
 def evInbound (w : World) : Option (World × Option Err) :=
-  if w.portOpen then some (addConn w none none) else none
+  if w.portOpen then (if w.hasKey then some (addConn w none none) else some (addOrphan w)) else none
 
 def evConnected (w : World) (k : Nat) : Option (World × Option Err) :=
   match w.cont[k]? with
@@ -580,7 +602,7 @@ def evAdvance (w : World) (dt : Nat) : World :=
 
 def initWorld (cfg : Cfg) (listener : Bool) (directs : Nat) (relays : List Nat) : World :=
   { cfg := cfg, now := 0, seq := 0, winner := none, conns := fun _ => none, n := 0, fPending := [],
-    portOpen := listener,
+    portOpen := listener, hasKey := cfg.keyAtStart,
     cont := (if listener then [{ kind := .listener, phase := .listening, attached := false }] else [])
       ++ List.replicate directs { kind := .direct, phase := .idle, attached := false }
       ++ relays.map (fun p => { kind := .relay p, phase := .idle, attached := false }),
@@ -590,18 +612,20 @@ def initWorld (cfg : Cfg) (listener : Bool) (directs : Nat) (relays : List Nat) 
 inductive Event where
   | inbound | connect | connected (k : Nat) | connFail (k : Nat)
   | data (i : Nat) (d : Bytes) | lost (i : Nat) | advance (dt : Nat)
+  | setKey                          -- `set_transit_key()`
   deriving Repr
 
 /-- one event; an event that cannot happen in the current world (the harness skips it) leaves
     the world unchanged -/
 def step (w : World) : Event → World
   | .inbound => match evInbound w with | some (w', _) => w' | none => w
-  | .connect => match evConnect w with | some w' => w' | none => w
+  | .connect => if w.hasKey then (match evConnect w with | some w' => w' | none => w) else w
   | .connected k => match evConnected w k with | some (w', _) => w' | none => w
   | .connFail k => match evConnFail w k with | some w' => w' | none => w
   | .data i d => (evData w i d).1
   | .lost i => evLost w i
   | .advance dt => evAdvance w dt
+  | .setKey => { w with hasKey := true }
 
 def run (w : World) (evs : List Event) : World := evs.foldl step w
 
@@ -728,7 +752,7 @@ def showListener (w : World) : String :=
 
 def showWorld (w : World) : String :=
   let cs := (List.range w.n).filterMap (fun i => (w.conns i).map (showConn w.cfg i))
-  s!"W={match w.winner with | some i => toString i | none => "-"} R={showRes w.result} L={showListener w} O={if w.portOpen then "open" else "closed"} P={w.fPending.length} T={(activeTimers w).length} | {" ".intercalate cs}"
+  s!"W={match w.winner with | some i => toString i | none => "-"} R={showRes w.result} L={showListener w} O={if w.portOpen then "open" else "closed"} K={if w.hasKey then "1" else "0"} P={w.fPending.length} T={(activeTimers w).length} | {" ".intercalate cs}"
 
 def drvInit : World :=
   initWorld { isSender := true, sendThis := [], expectThis := [], relayHs := [], recLayer := fun b => some b, recRest := fun b => b }
@@ -758,15 +782,16 @@ def withRaised (p : World × Option Err) : World × String :=
 /-- per-contender hint data of a `new`/`duo` line: `-` or a comma list indexed by contender -/
 def specList (t : String) : Option (List Nat) := if t == "-" then some [] else natList? (t.splitOn ",")
 
-def drvCfg (sender : Bool) (s e y : Bytes) (keys raises : List Nat) : Cfg :=
+def drvCfg (sender : Bool) (s e y : Bytes) (keys raises : List Nat) (late : Bool := false) : Cfg :=
   { isSender := sender, sendThis := s, expectThis := e, relayHs := y, recLayer := drvRecLayer, recRest := drvRecRest,
+    keyAtStart := !late,
     hintKey := fun k => match keys[k]? with | some x => x | none => 1000 + k,
     hintRaises := fun k => match raises[k]? with | some x => x != 0 | none => false }
 
-def drvNew (w : World) (role l nd rel s e y keys raises : String) : World × String :=
+def drvNew (w : World) (role l nd rel s e y keys raises : String) (late : Bool := false) : World × String :=
   match nd.toNat?, fromHex? s, fromHex? e, fromHex? y, specList rel, specList keys, specList raises with
   | some nd, some s, some e, some y, some rel, some keys, some raises =>
-    (initWorld (drvCfg (role == "S") s e y keys raises) (l == "1") nd rel, "ok")
+    (initWorld (drvCfg (role == "S") s e y keys raises late) (l == "1") nd rel, "ok")
   | _, _, _, _, _, _, _ => (w, "bad-op")
 
 def drvStep (w : World) (line : String) : World × String :=
@@ -774,8 +799,11 @@ def drvStep (w : World) (line : String) : World × String :=
   | ["reset"] => (drvInit, "ok")
   | ["new", role, l, nd, rel, s, e, y] => drvNew w role l nd rel s e y "-" "-"
   | ["new", role, l, nd, rel, s, e, y, keys, raises] => drvNew w role l nd rel s e y keys raises
+  | ["new", role, l, nd, rel, s, e, y, keys, raises, late] => drvNew w role l nd rel s e y keys raises (late == "1")
   | ["inbound"] => match evInbound w with | some p => withRaised p | none => (w, "skip")
-  | ["connect"] => match evConnect w with | some w' => (w', showWorld w') | none => (w, "skip")
+  | ["connect"] =>
+    if w.hasKey then (match evConnect w with | some w' => (w', showWorld w') | none => (w, "skip")) else (w, "skip")
+  | ["setkey"] => if w.hasKey then (w, "skip") else (let w' := step w .setKey; (w', showWorld w'))
   | ["connected", k] =>
     match k.toNat? with
     | some k => (match evConnected w k with | some p => withRaised p | none => (w, "skip"))
@@ -827,7 +855,8 @@ def showDuo (d : Duo) : String := s!"{showWorld d.s} || {showWorld d.r} || {show
     impossible ones), the `Option Err` is the exception the real call lets escape -/
 def sideEvent (w : World) (linked : Nat → Bool) : List String → Option (Event × Option Err)
   | ["inbound"] => (evInbound w).map fun p => (.inbound, p.2)
-  | ["connect"] => (evConnect w).map fun _ => (.connect, none)
+  | ["connect"] => if w.hasKey then (evConnect w).map fun _ => (.connect, none) else none
+  | ["setkey"] => if w.hasKey then none else some (.setKey, none)
   | ["connected", k] => k.toNat?.bind fun k => (evConnected w k).map fun p => (.connected k, p.2)
   | ["connfail", k] => k.toNat?.bind fun k => (evConnFail w k).map fun _ => (.connFail k, none)
   | ["data", i, h] =>
@@ -892,11 +921,12 @@ def duoStep (d : Duo) : List String → Duo × String
      | _, _ => (d, "bad-op"))
   | _ => (d, "bad-op")
 
-def drvDuo (st : DrvSt) (lS ndS relS lR ndR relR s e yS yR kS xS kR xR : String) : DrvSt × String :=
+def drvDuo (st : DrvSt) (lS ndS relS lR ndR relR s e yS yR kS xS kR xR : String)
+    (lateS : Bool := false) (lateR : Bool := false) : DrvSt × String :=
   match ndS.toNat?, ndR.toNat?, fromHex? s, fromHex? e, fromHex? yS, fromHex? yR, specList relS, specList relR,
         specList kS, specList xS, specList kR, specList xR with
   | some ndS, some ndR, some s, some e, some yS, some yR, some relS, some relR, some kS, some xS, some kR, some xR =>
-    ({ st with duo := some (initDuo (drvCfg true s e yS kS xS) (drvCfg false e s yR kR xR)
+    ({ st with duo := some (initDuo (drvCfg true s e yS kS xS lateS) (drvCfg false e s yR kR xR lateR)
         (lS == "1") ndS relS (lR == "1") ndR relR) }, "ok")
   | _, _, _, _, _, _, _, _, _, _, _, _ => (st, "bad-op")
 
@@ -906,6 +936,8 @@ def drvStep2 (st : DrvSt) (line : String) : DrvSt × String :=
   | ["duo", lS, ndS, relS, lR, ndR, relR, s, e, yS, yR] => drvDuo st lS ndS relS lR ndR relR s e yS yR "-" "-" "-" "-"
   | ["duo", lS, ndS, relS, lR, ndR, relR, s, e, yS, yR, kS, xS, kR, xR] =>
     drvDuo st lS ndS relS lR ndR relR s e yS yR kS xS kR xR
+  | ["duo", lS, ndS, relS, lR, ndR, relR, s, e, yS, yR, kS, xS, kR, xR, lateS, lateR] =>
+    drvDuo st lS ndS relS lR ndR relR s e yS yR kS xS kR xR (lateS == "1") (lateR == "1")
   | toks =>
     match toks with
     | t :: _ =>
